@@ -1,6 +1,6 @@
 #!/bin/bash
-# run every registered quick check once on /repo; prints one summary line per property
-cd /verif
+# run every registered quick check once on /repo (or on $VERIF_REPO); prints one summary line per property
+cd "$(dirname "$(readlink -f "$0")")/.."
 for p in $(python3 -c "import json; print(' '.join(c['property_id'] for c in json.load(open('MANIFEST.json'))['checks']))"); do
   s=$(date +%s); out=$(./check $p 2>&1); rc=$?; e=$(date +%s)
   echo "$p rc=$rc $((e-s))s $(echo "$out" | grep -c '^VIOLATION') violations :: $(echo "$out" | tail -1 | cut -c1-160)"
